@@ -67,7 +67,7 @@ def main():
             d = os.path.join(VERIF, 'seeded', name)
             os.makedirs(d, exist_ok=True)
             for f in ('patch.diff', 'demo.py', 'notes.md'):
-                if os.path.exists(os.path.join(src, f)): shutil.copy(os.path.join(src, f), os.path.join(d, f))
+                if os.path.exists(os.path.join(src, f)) and os.path.abspath(src) != os.path.abspath(d): shutil.copy(os.path.join(src, f), os.path.join(d, f))
             meta['what_i_ran'] = ['git apply patch.diff in a scratch worktree of /repo HEAD', 'demo.py with and without the change',
                                   ('tools/baseline_check.py on the worktree (578 stable tests): ' + str(meta.get('suite'))),
                                   'VERIF_REPO=<worktree> bin/check %s --tier quick' % ','.join([pid] + also)]
